@@ -2,7 +2,10 @@ use crate::wal::block::Block;
 use crate::wal::config::debug_print;
 use std::collections::HashMap;
 use std::io;
+#[cfg(not(walrus_verif))]
 use std::sync::{Arc, RwLock};
+#[cfg(walrus_verif)]
+use crate::wal::verif::sync::{Arc, RwLock};
 
 #[derive(Debug)]
 pub(super) struct ColReaderInfo {
